@@ -119,7 +119,11 @@ func (w *ShardWriter) dial(nodeID uint64) (net.Conn, error) {
 		if err != nil {
 			return nil, err
 		}
-		w.pool.setPool(nodeID, p)
+		// Another caller may have created the pool meanwhile: keep one, or the other
+		// pool with its connection and pruner is orphaned and the stream limit is void.
+		if _, loaded := w.pool.setPoolIfAbsent(nodeID, p); loaded {
+			p.Close()
+		}
 	}
 	return w.pool.conn(nodeID)
 }
